@@ -346,7 +346,7 @@ func (v *verdict) candidates(c *Case) []cand {
 					}
 					cd := add("spec", &Case{Origin: "mini", Decls: withDeps, Obs: []Obs{{Form: "var", Expr: obsExpr}}})
 					cd.si, cd.ni, cd.own, cd.name = si, ni, trunc, n.Name
-					cd.ctxValid = valid
+					_ = valid // a spec candidate is never an artefact: its observation is always a valid use
 				}
 				if !named {
 					cd := add("spec", &Case{Origin: "mini", Decls: withDeps, Obs: []Obs{{Form: "var", Expr: "0"}}})
@@ -686,7 +686,7 @@ func localise(c *Case, mode string) *culprit {
 	v := typecheck(r)
 	for _, cd := range v.candidates(c) {
 		f, mv := featOf(cd)
-		if mv.file == nil || cd.ctxValid && !f.goOK {
+		if mv.file == nil || cd.ctxValid && !f.goOK || mv.largestArray() > 65536 {
 			continue
 		}
 		var res result
@@ -722,6 +722,25 @@ func diagnose(c *Case, mode string, res result) (sig, msg string, rc *Case) {
 	for _, rl := range rules {
 		if rl.divs[cu.res.div] && rl.match(cu.f) {
 			return prefix + rl.sig, msg, cu.mini
+		}
+	}
+	// The culprit itself is no listed construct. If it stands on a declaration
+	// that is one (whose own stand-alone observation happened to pass), the
+	// divergence is attributed to that declaration. This adds no exclusion: a
+	// case holding such a declaration is switched off anyway while the finding
+	// is listed.
+	if len(cu.mini.Decls) > 0 {
+		mv := typecheck(cu.mini.render())
+		for _, cd := range mv.candidates(cu.mini) {
+			if cd.what != "spec" && cd.what != "arraydecl" {
+				continue
+			}
+			f2, _ := featOf(cd)
+			for _, rl := range rules {
+				if rl.divs[cu.res.div] && rl.match(f2) {
+					return prefix + rl.sig, msg, cu.mini
+				}
+			}
 		}
 	}
 	return prefix + "other-" + cu.f.genericKey() + "-yaegi:" + cu.res.div, msg, cu.mini
@@ -856,6 +875,16 @@ func (v *verdict) tags(e ast.Expr, has map[string]bool) {
 				has["untyped-binop"] = true
 				if x.Op == token.QUO && xk == "untyped rune" {
 					has["rune-quo"] = true
+				}
+				if x.Op == token.QUO && (xk == "untyped rune" || xk == "untyped int") {
+					has["int-quo"] = true
+				}
+				if x.Op == token.QUO && xk == "untyped complex" {
+					// divisor without imaginary part (its recorded value; iota makes it per-line, the kind does not change)
+					if tv, ok := v.info.Types[stripParens(x.Y)]; ok && tv.Value != nil &&
+						constant.Sign(constant.Imag(constant.ToComplex(tv.Value))) == 0 {
+						has["complex-real-quo"] = true
+					}
 				}
 			}
 			switch x.Op {
